@@ -2,6 +2,8 @@ package main
 
 import (
 	"fmt"
+	"go/ast"
+	"strconv"
 	"go/constant"
 	"go/token"
 	"go/types"
@@ -2635,6 +2637,17 @@ func ruleSearchLastLE(c *Ctx, rule string) {
 				}
 				// elem > x   or   x < elem, where x is the captured key
 				isKey := func(v ssa.Value) bool {
+					for {
+						if cv, ok := v.(*ssa.Convert); ok {
+							v = cv.X
+							continue
+						}
+						if ct, ok := v.(*ssa.ChangeType); ok {
+							v = ct.X
+							continue
+						}
+						break
+					}
 					if ld, ok := v.(*ssa.UnOp); ok {
 						_, fv := ld.X.(*ssa.FreeVar)
 						return fv
@@ -3199,4 +3212,207 @@ func ruleVarintOnly(c *Ctx, rule string) {
 	if n == 0 {
 		c.Und(rule, "integer codecs", "-", "no MarshalBinary of an integer-kinded codec type found")
 	}
+}
+
+// ---- C02/compound-op-agree ------------------------------------------------------------------------------------------------------
+// `x op= y` means `x = x op y`.  The compiler's table from compound-assignment
+// tokens to the binary operator it emits agrees with the token package's own
+// table of spellings: for every case of the switch over assignment tokens, the
+// operator token emitted in that case is the token whose spelling is the case
+// token's spelling without its final "=" ("%=" -> "%").
+func ruleCompoundOpAgree(c *Ctx, rule string) {
+	l := c.L
+	tp := l.ByPath[modPath+"/token"]
+	up := l.ByPath[modPath]
+	if !c.Anchor(rule, "packages ugo and token", tp != nil && up != nil) {
+		return
+	}
+	// spelling table: const name -> string, from the composite literal keyed by token constants
+	spell := map[string]string{}
+	for _, f := range tp.Syntax {
+		ast.Inspect(f, func(n ast.Node) bool {
+			cl, ok := n.(*ast.CompositeLit)
+			if !ok {
+				return true
+			}
+			for _, el := range cl.Elts {
+				kv, ok := el.(*ast.KeyValueExpr)
+				if !ok {
+					continue
+				}
+				id, ok := kv.Key.(*ast.Ident)
+				bl, ok2 := kv.Value.(*ast.BasicLit)
+				if ok && ok2 && bl.Kind == token.STRING {
+					if s, err := strconv.Unquote(bl.Value); err == nil {
+						if _, isConst := tp.TypesInfo.Uses[id].(*types.Const); isConst {
+							spell[id.Name] = s
+						}
+					}
+				}
+			}
+			return true
+		})
+	}
+	bySpell := map[string]string{}
+	for n, s := range spell {
+		bySpell[s] = n
+	}
+	if !c.Anchor(rule, "the token package's table of spellings", len(spell) > 20) {
+		return
+	}
+	tokName := func(e ast.Expr) string {
+		if se, ok := ast.Unparen(e).(*ast.SelectorExpr); ok {
+			if cst, ok := up.TypesInfo.Uses[se.Sel].(*types.Const); ok && cst.Pkg() == tp.Types {
+				return se.Sel.Name
+			}
+		}
+		return ""
+	}
+	n := 0
+	for _, f := range up.Syntax {
+		ast.Inspect(f, func(nd ast.Node) bool {
+			sw, ok := nd.(*ast.SwitchStmt)
+			if !ok || sw.Tag == nil {
+				return true
+			}
+			for _, cl := range sw.Body.List {
+				cc := cl.(*ast.CaseClause)
+				for _, ce := range cc.List {
+					cn := tokName(ce)
+					s := spell[cn]
+					if cn == "" || len(s) < 2 || !strings.HasSuffix(s, "=") {
+						continue
+					}
+					want := bySpell[strings.TrimSuffix(s, "=")]
+					if want == "" || s == "==" || s == "!=" || s == "<=" || s == ">=" || s == ":=" {
+						continue
+					}
+					// the operator tokens mentioned in the clause body
+					var got []string
+					for _, st := range cc.Body {
+						ast.Inspect(st, func(x ast.Node) bool {
+							if e, ok := x.(ast.Expr); ok {
+								if tn := tokName(e); tn != "" {
+									got = append(got, tn)
+								}
+							}
+							return true
+						})
+					}
+					if len(got) == 0 {
+						continue // not a table from assignment tokens to operators
+					}
+					n++
+					okc := len(got) == 1 && got[0] == want
+					c.Check(rule, "compound assignment "+cn, l.Pos(cc.Pos()), okc, "emits token."+want+" ("+strings.TrimSuffix(s, "=")+")",
+						fmt.Sprintf("the case for token.%s (%s) uses token.%s where the spelling table pairs it with token.%s: `x %s y` is compiled as another operator than `x = x %s y`", cn, s, strings.Join(got, ", token."), want, s, strings.TrimSuffix(s, "=")))
+				}
+			}
+			return true
+		})
+	}
+	if n == 0 {
+		c.Und(rule, "table from compound-assignment tokens to operators", "-", "no switch case over an assignment token names an operator token")
+	}
+}
+
+// ---- C02/stack-index-paired (also C03) --------------------------------------------------------------------------------------
+// The compiler keeps its open loops in a slice and the innermost one in an index
+// that is incremented when a loop is entered and decremented when it is left.
+// The two move together: a function that only increments an index field of the
+// compiler and also appends to a slice field of the same struct has a
+// counterpart that only decrements the index - that counterpart also shortens
+// the same slice.  With the pop dropped, index and slice are out of step after
+// the first finished loop: the break / continue of a later loop are recorded on
+// the finished one, their jumps are never patched and land on instruction 0.
+func ruleStackIndexPaired(c *Ctx, rule string) {
+	l := c.L
+	cs, _ := l.structField(modPath, "Compiler", "loopIndex")
+	if !c.Anchor(rule, "type Compiler", cs != nil) {
+		return
+	}
+	isC := func(v ssa.Value) bool {
+		p, ok := v.Type().Underlying().(*types.Pointer)
+		return ok && types.Identical(p.Elem().Underlying(), cs)
+	}
+	type fx struct {
+		inc, dec   map[int]bool
+		app, shrnk map[int]bool
+	}
+	per := map[*ssa.Function]*fx{}
+	for _, fn := range l.RepoFuncs(func(pp string) bool { return pp == modPath }) {
+		f := &fx{map[int]bool{}, map[int]bool{}, map[int]bool{}, map[int]bool{}}
+		eachInstr(fn, func(ins ssa.Instruction) {
+			st, ok := ins.(*ssa.Store)
+			if !ok {
+				return
+			}
+			fa, ok := st.Addr.(*ssa.FieldAddr)
+			if !ok || !isC(fa.X) {
+				return
+			}
+			switch v := st.Val.(type) {
+			case *ssa.BinOp:
+				if k, ok := constInt64(v.Y); ok && k == 1 {
+					if ld, ok := v.X.(*ssa.UnOp); ok {
+						if fa2, ok := ld.X.(*ssa.FieldAddr); ok && fa2.Field == fa.Field {
+							if v.Op == token.ADD {
+								f.inc[fa.Field] = true
+							} else if v.Op == token.SUB {
+								f.dec[fa.Field] = true
+							}
+						}
+					}
+				}
+			case *ssa.Call:
+				if b, ok := v.Call.Value.(*ssa.Builtin); ok && b.Name() == "append" && len(v.Call.Args) > 0 {
+					if ld, ok := v.Call.Args[0].(*ssa.UnOp); ok {
+						if fa2, ok := ld.X.(*ssa.FieldAddr); ok && fa2.Field == fa.Field {
+							f.app[fa.Field] = true
+						}
+					}
+				}
+			case *ssa.Slice:
+				if ld, ok := v.X.(*ssa.UnOp); ok {
+					if fa2, ok := ld.X.(*ssa.FieldAddr); ok && fa2.Field == fa.Field && v.High != nil {
+						f.shrnk[fa.Field] = true
+					}
+				}
+			}
+		})
+		per[fn] = f
+	}
+	n := 0
+	for _, ent := range sortedFuncs(funcSetOf(per)) {
+		ef := per[ent]
+		for idx := range ef.inc {
+			if ef.dec[idx] {
+				continue
+			}
+			for sl := range ef.app {
+				// ent pushes: increments idx and appends to sl.  Its counterparts: functions that only decrement idx
+				for _, lv := range sortedFuncs(funcSetOf(per)) {
+					lf := per[lv]
+					if !lf.dec[idx] || lf.inc[idx] {
+						continue
+					}
+					n++
+					c.Check(rule, fmt.Sprintf("%s / %s | %s and %s", fnName(ent), fnName(lv), cs.Field(idx).Name(), cs.Field(sl).Name()), l.Pos(lv.Pos()), lf.shrnk[sl],
+						"the function that decrements the index also shortens the slice",
+						fmt.Sprintf("%s appends to %s and increments %s, but %s only decrements %s: the slice keeps the finished entry, index and slice are out of step for the next loop of the same depth (its break / continue are recorded on the finished loop and their jumps, never patched, go to instruction 0)", fnName(ent), cs.Field(sl).Name(), cs.Field(idx).Name(), fnName(lv), cs.Field(idx).Name()))
+				}
+			}
+		}
+	}
+	if n == 0 {
+		c.Und(rule, "push / pop pairs of the compiler", "-", "no function both appends to a slice field and increments an index field of the compiler")
+	}
+}
+
+func funcSetOf[T any](m map[*ssa.Function]T) map[*ssa.Function]bool {
+	out := map[*ssa.Function]bool{}
+	for f := range m {
+		out[f] = true
+	}
+	return out
 }
